@@ -9,6 +9,7 @@ package main
 // carry no state. "B is error-gated by A" = B carries no state of A's error.
 
 import (
+	"fmt"
 	"go/ast"
 	"go/token"
 	"go/types"
@@ -146,26 +147,58 @@ func (s ErrStates) at(id int) []string {
 }
 
 // ErrStatesFrom runs the dataflow for error variable E assigned at node A.
-func (f *Flat) ErrStatesFrom(A int, E types.Object) ErrStates {
+func (f *Flat) ErrStatesFrom(A int, E types.Object) ErrStates { return f.errStatesFrom(A, E, false) }
+
+// ErrStatesFromTwins also follows the error into other error variables it is copied or wrapped (%w) into by plain
+// assignments (resErr = fmt.Errorf("...: %w", err)): for questions of the kind "is this node reachable while the
+// failure is pending", where a later test of the twin decides the branch.
+func (f *Flat) ErrStatesFromTwins(A int, E types.Object) ErrStates {
+	return f.errStatesFrom(A, E, true)
+}
+
+func (f *Flat) errStatesFrom(A int, E types.Object, twins bool) ErrStates {
 	info := f.Pkg.TypesInfo
 	st := ErrStates{}
-	// carrier: the variable that currently holds the error. It starts as E; when a spliced-in helper returns the
-	// error (unchanged or wrapped) the caller's variable takes over, and when the error is handed to a spliced-in
-	// helper as an argument the helper's parameter does.
+	// carriers: the variables that currently hold the error. It starts as {E}; when a spliced-in helper returns the
+	// error (unchanged or wrapped) the caller's variable takes over, when the error is handed to a spliced-in
+	// helper as an argument the helper's parameter joins, and when it is copied or wrapped (%w) into another
+	// error variable (resErr = fmt.Errorf("...: %w", err)) that variable joins: a later test of any of them
+	// decides the branch.
 	type item struct {
-		id      int
-		state   string
-		carrier types.Object
+		id    int
+		state string
+		cs    []types.Object
 	}
-	type key struct {
-		id      int
-		state   string
-		carrier types.Object
+	keyOf := func(id int, s string, cs []types.Object) string {
+		k := fmt.Sprintf("%d|%s", id, s)
+		for _, c := range cs {
+			k += fmt.Sprintf("|%p", c)
+		}
+		return k
 	}
-	seen := map[key]bool{}
+	norm := func(cs []types.Object) []types.Object {
+		out := append([]types.Object{}, cs...)
+		sort.Slice(out, func(i, j int) bool { return out[i].Pos() < out[j].Pos() })
+		var res []types.Object
+		for i, c := range out {
+			if i == 0 || out[i-1] != c {
+				res = append(res, c)
+			}
+		}
+		return res
+	}
+	has := func(cs []types.Object, o types.Object) bool {
+		for _, c := range cs {
+			if c == o {
+				return true
+			}
+		}
+		return false
+	}
+	seen := map[string]bool{}
 	var work []item
 	cur := A
-	push := func(id int, s string, c types.Object) {
+	push := func(id int, s string, cs []types.Object) {
 		ek := edgeKey(cur, id)
 		if st[ek] == nil {
 			st[ek] = map[string]bool{}
@@ -175,77 +208,119 @@ func (f *Flat) ErrStatesFrom(A int, E types.Object) ErrStates {
 			st[id] = map[string]bool{}
 		}
 		st[id][s] = true
-		k := key{id, s, c}
+		cs = norm(cs)
+		k := keyOf(id, s, cs)
 		if !seen[k] {
 			seen[k] = true
-			work = append(work, item{id, s, c})
+			work = append(work, item{id, s, cs})
 		}
 	}
 	for _, e := range f.Nodes[A].Succs {
-		push(e.To, "any", E)
+		push(e.To, "any", []types.Object{E})
 	}
 	for len(work) > 0 {
 		it := work[len(work)-1]
 		work = work[:len(work)-1]
 		n := f.Nodes[it.id]
 		cur = it.id
-		carrier := it.carrier
+		cs := it.cs
 		if n.Ast != nil {
-			// hand-over at the boundary of a spliced-in helper
-			if as, ok := n.Ast.(*ast.AssignStmt); ok && n.Synth != "" && len(as.Lhs) == len(as.Rhs) {
-				moved := false
+			var joined []types.Object
+			if as, ok := n.Ast.(*ast.AssignStmt); ok && len(as.Lhs) == len(as.Rhs) {
 				for i, rhs := range as.Rhs {
-					if !usesObj(info, rhs, carrier) {
+					y := objOf(info, as.Lhs[i])
+					if y == nil || !isErrorType(y.Type()) {
 						continue
 					}
-					if k, _, _ := keepsClass(info, rhs, carrier); k {
-						if y := objOf(info, as.Lhs[i]); y != nil && isErrorType(y.Type()) {
-							carrier = y
-							moved = true
-						}
+					if n.Synth == "" && !twins {
+						continue
 					}
-				}
-				if moved {
-					for _, e := range n.Succs {
-						push(e.To, it.state, carrier)
-					}
-					continue
-				}
-				// the helper returns while its own error variable is non-nil, and gives its caller another,
-				// certainly non-nil error in its place (return ErrNoFreeSpace after the retries): the failure is
-				// reported under another name, the helper's variable does not live on in the caller
-				if ii, ok := f.Inl[n.ID]; ok && n.Synth == "result" {
-					if callee := f.P.Funcs[ii.Callee]; callee != nil && callee.Decl != nil && carrier.Pos() >= callee.Decl.Pos() && carrier.Pos() <= callee.Decl.End() {
-						replaced := false
-						for i, rhs := range as.Rhs {
-							if y := objOf(info, as.Lhs[i]); y != nil && isErrorType(y.Type()) && certainlyNonNilError(info, rhs) {
-								replaced = true
-							}
-						}
-						if replaced {
+					for _, c := range cs {
+						if !usesObj(info, rhs, c) {
 							continue
 						}
+						if k, _, _ := keepsClass(info, rhs, c); k {
+							joined = append(joined, y)
+						}
+					}
+				}
+				if n.Synth != "" {
+					if len(joined) > 0 {
+						next := joined
+						if n.Synth != "result" {
+							next = append(append([]types.Object{}, cs...), joined...) // an argument: the caller's variable lives on
+						}
+						for _, e := range n.Succs {
+							push(e.To, it.state, next)
+						}
+						continue
+					}
+					// the helper returns while its own error variable is non-nil, and gives its caller another,
+					// certainly non-nil error in its place (return ErrNoFreeSpace after the retries): the failure is
+					// reported under another name, the helper's variable does not live on in the caller
+					if ii, ok := f.Inl[n.ID]; ok && n.Synth == "result" {
+						if callee := f.P.Funcs[ii.Callee]; callee != nil && callee.Decl != nil {
+							local := true
+							for _, c := range cs {
+								if c.Pos() < callee.Decl.Pos() || c.Pos() > callee.Decl.End() {
+									local = false
+								}
+							}
+							replaced := false
+							for i, rhs := range as.Rhs {
+								if y := objOf(info, as.Lhs[i]); y != nil && isErrorType(y.Type()) {
+									if certainlyNonNilError(info, rhs) {
+										replaced = true
+									}
+									// a local the split graph knows to be non-nil here (resErr after resErr = ErrNoFreeSpace)
+									if ro := objOf(info, rhs); ro != nil && f.Facts != nil && f.Facts[n.ID][ro] == 1 {
+										replaced = true
+									}
+								}
+							}
+							if local && replaced {
+								continue
+							}
+						}
 					}
 				}
 			}
-			kill := false
-			for _, o := range assignedObjs(info, n.Ast) {
-				if o == carrier {
-					kill = true
+			// reassigned carriers drop out (unless this statement makes them carry the error again)
+			var kept []types.Object
+			for _, c := range cs {
+				killed := false
+				for _, o := range assignedObjs(info, n.Ast) {
+					if o == c && !has(joined, c) {
+						killed = true
+					}
+				}
+				if !killed {
+					kept = append(kept, c)
 				}
 			}
-			if kill {
+			cs = append(kept, joined...)
+			if len(cs) == 0 {
 				continue
 			}
 		}
 		if n.IsCond {
 			cond := n.Ast.(ast.Expr)
-			if condMentions(info, cond, carrier) {
-				for _, w := range worldsFor(info, cond, carrier, it.state) {
-					mt, mf := eval3(info, cond, carrier, w)
+			var mentioned []types.Object
+			for _, c := range cs {
+				if condMentions(info, cond, c) {
+					mentioned = append(mentioned, c)
+				}
+			}
+			if len(mentioned) > 0 {
+				for _, w := range worldsFor(info, cond, mentioned[0], it.state) {
+					mt, mf := true, true
+					for _, c := range mentioned {
+						t, fl := eval3(info, cond, c, w)
+						mt, mf = mt && t, mf && fl
+					}
 					for _, e := range n.Succs {
 						if (e.Label == 1 && mt) || (e.Label == 2 && mf) {
-							push(e.To, w, carrier)
+							push(e.To, w, cs)
 						}
 					}
 				}
@@ -253,7 +328,7 @@ func (f *Flat) ErrStatesFrom(A int, E types.Object) ErrStates {
 			}
 		}
 		for _, e := range n.Succs {
-			push(e.To, it.state, carrier)
+			push(e.To, it.state, cs)
 		}
 	}
 	return st
@@ -379,7 +454,7 @@ func (f *Flat) GatedBy(site callSite, targets []int, tolerated ...string) (bool,
 	if site.Kind != "assigned" || site.ErrVar == nil {
 		return false, -1, []string{"error result is " + site.Kind}
 	}
-	st := f.ErrStatesFrom(site.Node, site.ErrVar)
+	st := f.ErrStatesFromTwins(site.Node, site.ErrVar)
 	tol := map[string]bool{}
 	for _, t := range tolerated {
 		tol[t] = true
